@@ -71,6 +71,38 @@ theorem http_e2e (cfg : Cfg) (env : Env) (ci : ClientInfo) (p : Bytes) (hg : Gat
   · rw [hdg, handle_http_none, hs]
   · rw [hst, handle_http_fresh, hs]
 
+/-- … and over TCP the block recorded for the flow is ready for the NEXT request: `http::repl` resets the
+    stored parser state once it has answered (`C13.http_state_reset`), the block is `C13.FreshHttp` -/
+theorem http_e2e_fresh (cfg : Cfg) (env : Env) (ci : ClientInfo) (p : Bytes) (hg : Gate ci)
+    (h : strictRequest p = true) :
+    ∃ t, protoRepl cfg env ci (some {}) p = .ok (ci, some t, some (httpReplyBytes env)) ∧ C13.FreshHttp t := by
+  obtain ⟨m, hm, r, hp, h47, ht⟩ := (C13.relaxedRequest_unfold p).1 (C13.strict_subset_relaxed p h)
+  obtain ⟨hK2, _⟩ := http_ident p m r hm hp h47
+  have hs := (C13.http_every_request_answered env p).1 ⟨m, 32 :: r, hp, List.mem_map_of_mem hm, ht⟩
+  obtain ⟨_, st, hst⟩ := dispatch_both cfg env ci p ID_HTTP hg hK2
+  refine ⟨{ protoId := ID_HTTP, smackState := st, protoState := some (.http {}) }, ?_, rfl, .inr rfl⟩
+  rw [hst, handle_http_fresh, hs]
+
+/-- **every request of an HTTP connection, end to end**: a new TCP flow (empty control block) whose data
+    segments each hold one complete request of the property's grammar — the first one is identified as HTTP
+    by the dispatcher, the later ones are judged by the responder alone —: no panic, EVERY segment is
+    answered with the well-formed 401 response, and the flow's block ends ready for the next request.
+    (Before the repair of `http::repl` the later segments were answered too — but so was everything else.
+    What is NOT answered after an answered request: `C13.http_later_junk_silent`.) -/
+theorem http_connection_all_answered (cfg : Cfg) (env : Env) (ci : ClientInfo) (hg : Gate ci)
+    (hd : ∀ b ∈ env.httpDate, b ≠ 10 ∧ b ≠ 13) (p : Bytes) (ps : List Bytes)
+    (hps : ∀ q ∈ p :: ps, strictRequest q = true) :
+    ∃ t, C11.feed cfg env ci {} (p :: ps) = .ok (t, (p :: ps).map (fun _ => some (httpReplyBytes env))) ∧
+      C13.FreshHttp t ∧ reply401Ok (httpReplyBytes env) = true := by
+  obtain ⟨t1, h1, hf1⟩ := http_e2e_fresh cfg env ci p hg (hps p (List.mem_cons_self ..))
+  obtain ⟨t, h2, hf2, _⟩ := C13.http_requests_all_answered cfg env ci hg ps (fun q hq => by
+    obtain ⟨m, hm, r, hp, _, ht⟩ :=
+      (C13.relaxedRequest_unfold q).1 (C13.strict_subset_relaxed q (hps q (List.mem_cons_of_mem _ hq)))
+    exact ⟨m, 32 :: r, hp, List.mem_map_of_mem hm, ht⟩) t1 hf1
+  refine ⟨t, ?_, hf2, C13.http_reply_wf env hd⟩
+  rw [C11.feed_cons_ok cfg env ci ci _ _ p ps _ h1, h2]
+  rfl
+
 /-- FINDING (formulation, not implementation): a request of the grammar may lie in `Spec.shadowed`;
     "not shadowed" cannot be proved from the grammar.  "GET /" + target bytes spelling an ONC-RPC/TCP
     header.  `http_e2e` covers it all the same. -/
@@ -340,31 +372,48 @@ theorem smb1_flags_witness :
 
 /-! ### DNS -/
 
-/-- **DNS end to end** (C14 `dns_c14`, identification hypothesis restated on the signature sets): an
-    IN/A query over UDP to the IPv4 address `a` that the matcher does not identify is answered by the
-    faithful reply -/
-theorem dns_e2e_K2 (cfg : Cfg) (env : Env) (ci : ClientInfo) (p a : Bytes) (q : DMsg)
-    (hq : inAQuery p = some q) (hd : ci.ipDst = some (.v4 a)) (ha : a.length = 4)
+/-- **DNS end to end** (C14 `dns_c14_full`, identification hypothesis restated on the signature sets): an
+    IN/A query — any label layout, any octets inside the labels (`DnsFix.inAQueryAny`: `Spec.inAQuery`
+    without its `labelsNoNul` conjunct) — over UDP to the IPv4 address `a` that the matcher does not
+    identify is answered by the faithful reply -/
+theorem dns_e2e_K2_full (cfg : Cfg) (env : Env) (ci : ClientInfo) (p a : Bytes) (q : DMsg)
+    (hq : DnsFix.inAQueryAny p = some q) (hd : ci.ipDst = some (.v4 a)) (ha : a.length = 4)
     (hudp : ci.transport = some 17) (h1 : refDatagramK2 p = none) :
     ∃ r, protoRepl cfg env ci none p = .ok (ci, none, some r) ∧ dnsReplyOk q r a = true ∧
       r.length ≤ 7 * p.length := by
   obtain ⟨st, n, st', hs1, hs2⟩ := datagram_noMatch p h1
-  obtain ⟨m, r, hm, hr, hok⟩ := C14.dns_reply_faithful (ci := ci) hq hd ha
+  obtain ⟨m, r, hm, hr, hok⟩ := C14.dns_reply_faithful_full (ci := ci) hq hd ha
   have h16 : C01.ipLen16 ci.ipDst := by
     intro ip hip
     rw [hd] at hip; cases hip
     simp [Ip.bytes, ha]
   exact ⟨r, C14.dns_fallback (by simp [hudp]) hs1 hs2 hm hr, hok, C01.dns_reply_len ci h16 p m r hm hr⟩
 
+/-- … in the Spec's vocabulary (`Spec.inAQuery` implies `DnsFix.inAQueryAny`) -/
+theorem dns_e2e_K2 (cfg : Cfg) (env : Env) (ci : ClientInfo) (p a : Bytes) (q : DMsg)
+    (hq : inAQuery p = some q) (hd : ci.ipDst = some (.v4 a)) (ha : a.length = 4)
+    (hudp : ci.transport = some 17) (h1 : refDatagramK2 p = none) :
+    ∃ r, protoRepl cfg env ci none p = .ok (ci, none, some r) ∧ dnsReplyOk q r a = true ∧
+      r.length ≤ 7 * p.length :=
+  dns_e2e_K2_full cfg env ci p a q (DnsFix.inAQuery_any hq) hd ha hudp h1
+
 /-- … with the published reference: no published signature completed, outside the shadow set, not one
     byte short of an ONC-RPC signature -/
+theorem dns_e2e_full (cfg : Cfg) (env : Env) (ci : ClientInfo) (p a : Bytes) (q : DMsg)
+    (hq : DnsFix.inAQueryAny p = some q) (hd : ci.ipDst = some (.v4 a)) (ha : a.length = 4)
+    (hudp : ci.transport = some 17)
+    (h1 : refDatagram p = none) (h2 : shadowed p = false) (h3 : rpcOneShort p = false) :
+    ∃ r, protoRepl cfg env ci none p = .ok (ci, none, some r) ∧ dnsReplyOk q r a = true ∧
+      r.length ≤ 7 * p.length :=
+  dns_e2e_K2_full cfg env ci p a q hq hd ha hudp (by rw [C10.refDatagramK2_eq_of_not_shadowed p h2 h3]; exact h1)
+
 theorem dns_e2e (cfg : Cfg) (env : Env) (ci : ClientInfo) (p a : Bytes) (q : DMsg)
     (hq : inAQuery p = some q) (hd : ci.ipDst = some (.v4 a)) (ha : a.length = 4)
     (hudp : ci.transport = some 17)
     (h1 : refDatagram p = none) (h2 : shadowed p = false) (h3 : rpcOneShort p = false) :
     ∃ r, protoRepl cfg env ci none p = .ok (ci, none, some r) ∧ dnsReplyOk q r a = true ∧
       r.length ≤ 7 * p.length :=
-  dns_e2e_K2 cfg env ci p a q hq hd ha hudp (by rw [C10.refDatagramK2_eq_of_not_shadowed p h2 h3]; exact h1)
+  dns_e2e_full cfg env ci p a q (DnsFix.inAQuery_any hq) hd ha hudp h1 h2 h3
 
 end Masscanned.C10E2E
 
@@ -389,6 +438,16 @@ example : strictRequest (B "GET / HTTP/1.1\r\nHost: a\r\n\r\n") = true ∧
 example (cfg : Cfg) : ∃ t r, protoRepl cfg envD ciTcp (some {}) (B "GET / HTTP/1.1\r\nHost: a\r\n\r\n") =
     .ok (ciTcp, some t, some r) ∧ r = httpReplyBytes envD ∧ reply401Ok r = true ∧ t.protoId = PROTO_HTTP :=
   (http_e2e cfg envD ciTcp _ (by decide) (by decide +kernel) (by decide +kernel)).2.2
+-- a connection with three requests of the grammar, one per segment: all answered (hypotheses of
+-- `http_connection_all_answered`, and the theorem on them)
+example (cfg : Cfg) : ∃ t, C11.feed cfg envD ciTcp {}
+      [B "GET / HTTP/1.1\r\nHost: a\r\n\r\n", B "OPTIONS /x?y HTTP/1.0\n\n", B "GET / HTTP/1.1\r\nHost: a\r\n\r\n"] =
+      .ok (t, [some (httpReplyBytes envD), some (httpReplyBytes envD), some (httpReplyBytes envD)]) ∧
+    C13.FreshHttp t := by
+  obtain ⟨t, h1, h2, _⟩ := http_connection_all_answered cfg envD ciTcp (by decide) (by decide +kernel)
+    (B "GET / HTTP/1.1\r\nHost: a\r\n\r\n") [B "OPTIONS /x?y HTTP/1.0\n\n", B "GET / HTTP/1.1\r\nHost: a\r\n\r\n"]
+    (by decide +kernel)
+  exact ⟨t, h1, h2⟩
 -- … also for the request inside `Spec.shadowed`
 example (cfg : Cfg) : ∃ r, protoRepl cfg envD ciUdp none httpShadowed = .ok (ciUdp, none, some r) ∧
     r = httpReplyBytes envD ∧ reply401Ok r = true :=
@@ -460,8 +519,13 @@ example (cfg : Cfg) (env : Env) : ∃ r, protoRepl cfg env ciUdp none C17.exNeg2
 -- DNS
 example : (inAQuery C14.q1).isSome = true ∧ refDatagram C14.q1 = none ∧ shadowed C14.q1 = false ∧
     rpcOneShort C14.q1 = false := by decide +kernel
+-- hypotheses of `dns_e2e_full` for `C14.qNul` (`a\0b IN A`: a 0x00 inside the label)
+example : (DnsFix.inAQueryAny C14.qNul).isSome = true ∧
+    refDatagram C14.qNul = none ∧ shadowed C14.qNul = false ∧ rpcOneShort C14.qNul = false := by decide +kernel
 
 #print axioms http_e2e
+#print axioms http_e2e_fresh
+#print axioms http_connection_all_answered
 #print axioms http_shadowed_witness
 #print axioms ssh_e2e
 #print axioms ghost_e2e
@@ -478,6 +542,8 @@ example : (inAQuery C14.q1).isSome = true ∧ refDatagram C14.q1 = none ∧ shad
 #print axioms smb1_e2e
 #print axioms smb2_e2e
 #print axioms smb1_flags_witness
+#print axioms dns_e2e_K2_full
+#print axioms dns_e2e_full
 #print axioms dns_e2e_K2
 #print axioms dns_e2e
 
